@@ -317,7 +317,7 @@ pub fn managed_race(prop: &'static str, seed: u64, close: bool) -> RaceOut {
 
 // ------------------------------------------------------------------ steady state
 
-pub struct SObj(Arc<Cnt>, usize);
+pub struct SObj(Arc<Cnt>, pub usize);
 impl Drop for SObj {
     fn drop(&mut self) {
         let _ = self.0.dropped.fetch_add(1, Ordering::SeqCst);
